@@ -32,6 +32,7 @@ CONSTANTS MaxDefs,        \* number of definitions in a configuration
           Rich,           \* TRUE: full identity pool and reference pool
           Entry,          \* "namespace" (read_namespace on directory 1) or "files" (read_files on a target subset)
           Bodies,         \* body kinds offered to the one distinguished definition
+          Dups,           \* TRUE (read_files only): one target may be listed a second time under another spelling of its path
           AsFoundTwoObjects,  \* TRUE reproduces F4a (target and lookup objects distinct: parsed twice)
           AsFoundPrintPath    \* TRUE reproduces F4b (print handler bound to the outermost target)
 
@@ -195,8 +196,10 @@ Complete ==
      \E special \in 0..Len(sd), b \in Bodies :
        /\ (special = 0) = (b = "ok")
        /\ \E tg \in (IF Entry = "files" THEN { T \in SUBSET { Id(d) : d \in { x \in case.defs : x.dir = 1 } } : T # {} } ELSE {{}}) :
+          \* the targets are a *set* of files: listing one of them twice, under whatever spelling, is the same call
+          \E dup \in (IF Dups THEN {{}} \cup { {t} : t \in tg } ELSE {{}}) :
             LET ds == { IF special # 0 /\ sd[special] = d THEN [d EXCEPT !.body = b] ELSE d : d \in case.defs } IN
-              /\ case' = [defs |-> ds, ids |-> case.ids, targets |-> tg]
+              /\ case' = [defs |-> ds, ids |-> case.ids, targets |-> tg, dup |-> dup]
               /\ out' = Result(case')
   /\ ph' = 2
 Next == PickIds \/ AddDef \/ Complete
